@@ -1728,6 +1728,70 @@ theorem tokLoop_sim {cfg cfg' : Cfg} (hc : cfg'.chain = cfg.chain) (hm : cfg'.ma
       · exact ih _ _ _ _ (by have := S3.setLineTight (s3.line + 1) (!he); simpa using this) (by simp only; omega) h
       · exact ih _ _ _ _ (by have := S3.setLineTight s3.line (!he); simpa using this) (by simp only; omega) h
 
+/-- when the loop runs the chain at least once, the `tight` flags agree at the end whatever they were
+    at the start (the loop overwrites the flag after every block) -/
+theorem tokLoop_sim_first {cfg cfg' : Cfg} (hc : cfg'.chain = cfg.chain) (hm : cfg'.maxNesting = cfg.maxNesting + 2)
+    {run run' : RuleId → BState → Bool → Res} (hr : RunSpec run) (R : RunSim C run run') {lo d : Nat} {te : Bool}
+    {fuel : Nat} {he : Bool} {s s' t : BState} (S : Sim C lo d te s s') (hlo : lo ≤ s.line)
+    (hlt : s.line < s.lineMax) (hne : s.isEmpty s.line = false) (hi : IndentOk s) (hlv : s.level < cfg.maxNesting)
+    (h : tokLoop cfg run fuel he s = .ok t) :
+    ∃ t', tokLoop cfg' run' fuel he s' = .ok t' ∧ Sim C lo d true t t' := by
+  cases fuel with
+  | zero => simp [tokLoop] at h
+  | succ f =>
+    simp only [tokLoop] at h ⊢
+    have hl's : Lines.skipEmptyLines s.offs s.lineMax s.line = s.line := (skipEmpty_spec _ _ _).2.2.1 hne
+    generalize hl' : Lines.skipEmptyLines s.offs s.lineMax s.line = l' at h hl's
+    have hskip : Lines.skipEmptyLines s'.offs s'.lineMax s'.line = l' := by
+      rw [S.lineMax, S.line, ← hl']
+      exact skipEmpty_congr (fun n => S.tbl.isEmpty n) _ _
+    have hc1 : (s'.line < s'.lineMax) = (s.line < s.lineMax) := by rw [S.line, S.lineMax]
+    have hc2 : (l' ≥ s'.lineMax) = (l' ≥ s.lineMax) := by rw [S.lineMax]
+    have hc3 : (s'.level ≥ cfg'.maxNesting) = (s.level ≥ cfg.maxNesting) := by
+      rw [S.level, hm]; simp
+    simp only [hskip, hc, hc1, hc2, hc3]
+    have Sl := S.setLine l'
+    clear hl' hskip
+    have hlt' : l' < s.lineMax := by omega
+    have hind' := Sl.tbl.lineIndent l' (by omega) hlt'
+    obtain ⟨i0, hi0, hi0'⟩ := hi
+    crack h
+    all_goals (try (exfalso; omega))
+    all_goals (try (
+      exfalso
+      have hh : s.lineIndent l' = .ok _ := ‹BState.lineIndent _ _ = Except.ok _›
+      rw [hl's, hi0] at hh
+      cases hh
+      omega))
+    all_goals (
+      have hchain := ‹runChain _ _ _ _ = _›
+      have hafter := ‹afterChain _ _ _ = _›
+      have hind := ‹BState.lineIndent _ _ = _›
+      have hpsub := ‹psub _ 1 = _›
+      rename_i w _ s3 _ _ _ _
+      obtain ⟨b, s2⟩ := w
+      have hiok : IndentOk ({ s with line := l' } : BState) := ⟨_, hind, by omega⟩
+      obtain ⟨s2', hchain', Sw⟩ := runChain_sim hr R _ _ _ _ _ Sl (by simp only; omega) (by simp only; omega) hiok hchain
+      obtain ⟨hfs, _⟩ := runChain_real hr _ _ _ _ hchain
+      obtain ⟨s3', hafter', S3⟩ := afterChain_sim Sw (fun hb => by
+        have := hfs hb
+        subst this
+        exact ⟨by simp only; omega, by simp only; omega⟩) hafter
+      obtain ⟨_, hadv, _⟩ := tok_iter hr (s1 := { s with line := l' }) (w := (b, s2)) (s3 := s3) rfl
+        (by simp only; omega) hiok hchain hafter
+      have T3 : Tbl C lo d { s3 with tight := !he } { s3' with tight := !he } := S3.tbl.of_eq rfl rfl rfl rfl rfl rfl rfl
+      have hpsub' := (show psub s3'.line 1 = psub s3.line 1 by rw [S3.line]).trans hpsub
+      have hcA : (s3'.line < s3'.lineMax) = (s3.line < s3.lineMax) := by rw [S3.line, S3.lineMax]
+      have hemp := T3.isEmpty
+      simp only at hchain' hafter' hadv
+      replay_li
+      try simp only [hemp, S3.line]
+      try replay_li)
+    · exact tokLoop_sim hc hm hr R _ _ _ _ _
+        (by have := (S3.setLineTight (s3.line + 1) (!he)).upgrade rfl; simpa using this) (by simp only; omega) h
+    · exact tokLoop_sim hc hm hr R _ _ _ _ _
+        (by have := (S3.setLineTight s3.line (!he)).upgrade rfl; simpa using this) (by simp only; omega) h
+
 /-- the two configurations: the same chain and tables, two more levels of nesting allowed -/
 structure CfgRel (cfg cfg' : Cfg) : Prop where
   chain : cfg'.chain = cfg.chain
@@ -1771,6 +1835,22 @@ theorem tokenize_sim {cfg cfg' : Cfg} (R : CfgRel cfg cfg') :
     have TS := testRules_sim (C := C) R f
     exact tokLoop_sim R.chain R.nesting (runRule_spec hk TS.pure _)
       (runRule_sim R hk hk' ih TS _) _ _ _ _ _ S hlo h
+
+/-- the same when the run starts on a non-blank line at a non-negative indent below the nesting limit:
+    the `tight` flags agree at the end whatever they were at the start -/
+theorem tokenize_sim_first {cfg cfg' : Cfg} (R : CfgRel cfg cfg') {fuel lo d : Nat} {te : Bool} {s s' t : BState}
+    (S : Sim C lo d te s s') (hlo : lo ≤ s.line) (hlt : s.line < s.lineMax) (hne : s.isEmpty s.line = false)
+    (hi : IndentOk s) (hlv : s.level < cfg.maxNesting) (h : tokenize cfg fuel s = .ok t) :
+    ∃ t', tokenize cfg' fuel s' = .ok t' ∧ Sim C lo d true t t' := by
+  cases fuel with
+  | zero => simp [tokenize, engine] at h
+  | succ f =>
+    simp only [tokenize, engine] at h ⊢
+    have hk := tokenize_tokSpec cfg f
+    have hk' := tokenize_tokSpec cfg' f
+    have TS := testRules_sim (C := C) R f
+    exact tokLoop_sim_first R.chain R.nesting (runRule_spec hk TS.pure _)
+      (runRule_sim R hk hk' (tokenize_sim R f) TS _) S hlo hlt hne hi hlv h
 end tok
 
 end MdIt.Block.Li
